@@ -2,8 +2,9 @@
 //! (spec/Lifetime.tla) performed on real roto objects.
 //!
 //! One case = `{"ops":[..]}`; every op is one Lifetime action:
-//!   build{g}            Runtime::from_lib(..) with a tracked constant RC (tag 50+g) and a
-//!                       closure `next` capturing an Arc'd tracked counter
+//!   build{g}            Runtime::from_lib(..) with a tracked constant RC (tag 50+g) and three
+//!                       closures next1..next3 made by ONE factory function (same Rust
+//!                       type), each capturing its own tracked counter (start 2000 * f)
 //!   compile{v,m}        FileTree::test_file(script version v).compile(&rt) -> Package m
 //!   get{m,h}            pkg[m].get_function::<fn() -> u64>("main") -> handle h
 //!   clone{a,b}          handle b = handle a .clone()
@@ -15,21 +16,27 @@
 //! Extra argument `noctx` (default) / `ctx`: with `ctx` the runtime has a context type and
 //! every call passes a context (TypedFunc<Ctx<HostCtx>, _>::call / into_func).
 //! After every step the number of live tracked instances per resource class
-//! (script constants of version 1 / version 2, registered constant, closure
-//! capture) and the call result (if any) are written; the comparison with the
+//! (script constants of version 1 / version 2, registered constant, capture of
+//! closure 1 / 2 / 3) and the call result (if any) are written; the comparison with the
 //! specification's expectations happens in lib/checks/c11.py.
 use std::collections::HashMap;
-use std::sync::Arc;
 use std::sync::atomic::{AtomicI64, AtomicU64, Ordering};
 
-use roto::{Context, Ctx, FileTree, NoCtx, Package, Runtime, TypedFunc, Val, library};
+use roto::{Context, Ctx, FileTree, Function, NoCtx, Package, Runtime, TypedFunc, Val, library, location};
 use rvh::batch::{Progress, parse_args, run_batch};
 use serde_json::{Value, json};
 
 /// live instances per resource class:
 /// 0 = script constants of version 1, 1 = script constants of version 2,
-/// 2 = registered constant, 3 = state captured by the registered closure
-static LIVE: [AtomicI64; 4] = [AtomicI64::new(0), AtomicI64::new(0), AtomicI64::new(0), AtomicI64::new(0)];
+/// 2 = registered constant, 3 / 4 / 5 = state captured by the registered closure 1 / 2 / 3
+static LIVE: [AtomicI64; 6] = [
+    AtomicI64::new(0),
+    AtomicI64::new(0),
+    AtomicI64::new(0),
+    AtomicI64::new(0),
+    AtomicI64::new(0),
+    AtomicI64::new(0),
+];
 /// set when a tracked value is used or dropped after it was dropped / never built
 static CORRUPT: AtomicI64 = AtomicI64::new(0);
 
@@ -81,16 +88,17 @@ impl Drop for Tk {
     }
 }
 
-/// The state captured by the registered closure.
+/// The state captured by the registered closure number `f` (1..=3).
 struct Counter {
+    f: usize,
     n: AtomicU64,
     check: AtomicU64,
 }
 
 impl Counter {
-    fn new() -> Self {
-        LIVE[3].fetch_add(1, Ordering::SeqCst);
-        Counter { n: AtomicU64::new(0), check: AtomicU64::new(MAGIC) }
+    fn new(f: usize) -> Self {
+        LIVE[2 + f].fetch_add(1, Ordering::SeqCst);
+        Counter { f, n: AtomicU64::new(2000 * f as u64), check: AtomicU64::new(MAGIC) }
     }
     fn bump(&self) -> u64 {
         if self.check.load(Ordering::SeqCst) != MAGIC {
@@ -107,21 +115,36 @@ impl Drop for Counter {
             return;
         }
         self.check.store(0x0BAD, Ordering::SeqCst);
-        LIVE[3].fetch_sub(1, Ordering::SeqCst);
+        if (1..=3).contains(&self.f) {
+            LIVE[2 + self.f].fetch_sub(1, Ordering::SeqCst);
+        } else {
+            CORRUPT.fetch_add(1, Ordering::SeqCst);
+        }
     }
 }
 
-/// Script versions.  Version 1 uses the registered constant and the closure,
-/// version 2 only the registered constant (and has two script constants).
-/// The result encodes (sum of script constant tags, registered constant tag,
-/// closure counter or 9999) as k * 10^7 + rc * 10^4 + n (rc < 1000, n < 10^4).
+/// The one factory of all registered closures: every closure it returns has the same
+/// Rust type (hence the same trampoline) but its own captured state.
+fn make_next(c: Counter) -> impl Fn() -> u64 + Send + Sync + 'static {
+    move || {
+        // use the whole struct so that the closure owns `c`
+        let c: &Counter = &c;
+        c.bump()
+    }
+}
+
+/// Script versions.  Version 1 has one script constant and calls the closures 1 and 2,
+/// version 2 has two script constants and calls the closures 2 and 3; both read the
+/// registered constant.  The result encodes (sum of script constant tags, registered
+/// constant tag, first counter, second counter) as
+/// k * 10^11 + rc * 10^8 + na * 10^4 + nb   (rc < 1000, na, nb < 10^4).
 fn script(v: u64, ctx: bool) -> String {
     let s = match v {
         1 => {
             r#"
 const K: Tk = mk(0, 11);
 fn main() -> u64 {
-    tag(K) * 10000000 + tag(RC) * 10000 + next()
+    tag(K) * 100000000000 + tag(RC) * 100000000 + next1() * 10000 + next2()
 }
 "#
         }
@@ -133,7 +156,7 @@ fn helper() -> u64 {
     tag(K) + tag(K2)
 }
 fn main() -> u64 {
-    helper() * 10000000 + tag(RC) * 10000 + 9999
+    helper() * 100000000000 + tag(RC) * 100000000 + next2() * 10000 + next3()
 }
 "#
         }
@@ -150,8 +173,7 @@ struct HostCtx {
 }
 
 fn build_runtime(g: u64) -> Runtime<NoCtx> {
-    let counter = Arc::new(Counter::new());
-    Runtime::from_lib(library! {
+    let mut rt = Runtime::from_lib(library! {
         #[clone] type Tk = Val<Tk>;
 
         fn mk(class: u64, tag: u64) -> Val<Tk> {
@@ -163,10 +185,16 @@ fn build_runtime(g: u64) -> Runtime<NoCtx> {
         }
 
         const RC: Val<Tk> = Val(Tk::new(2, 50 + g));
-
-        let next = move || -> u64 { counter.bump() };
     })
-    .expect("registration of the C11 library must succeed")
+    .expect("registration of the C11 library must succeed");
+    for f in 1..=3usize {
+        rt.add(
+            Function::new(format!("next{f}").as_str(), "the next value of a captured counter", vec![], make_next(Counter::new(f)), location!())
+                .expect("closure must be registerable"),
+        )
+        .expect("closure must register");
+    }
+    rt
 }
 
 fn live() -> Value {
@@ -174,7 +202,9 @@ fn live() -> Value {
         LIVE[0].load(Ordering::SeqCst),
         LIVE[1].load(Ordering::SeqCst),
         LIVE[2].load(Ordering::SeqCst),
-        LIVE[3].load(Ordering::SeqCst)
+        LIVE[3].load(Ordering::SeqCst),
+        LIVE[4].load(Ordering::SeqCst),
+        LIVE[5].load(Ordering::SeqCst)
     ])
 }
 
